@@ -86,3 +86,47 @@ Proof.
   { unfold g_direct_I_sqrt, direct_I_sqrt. intro E. apply sqrt_eq_0 in E; nra. }
   field. repeat split; try assumption; lra.
 Qed.
+
+(* ------------------------------------------------------------------------ *)
+(* (4) the recursion of the model IS the loop of hansenlaw.py                  *)
+(*     (generated: the element-wise state update and the order of columns)     *)
+(* ------------------------------------------------------------------------ *)
+From Coq Require Import Arith Lia.
+
+Definition g_hl_step_elem := hl_step_elem R Rplus Rmult.
+
+(* state update: every state k of every row is updated by the generated expression *)
+Lemma hl_step_is_source p ph c0 b0 c1 b1 xk x d1 d0 :
+  stepR (p :: ph) (c0 :: b0) (c1 :: b1) (xk :: x) d1 d0 =
+  g_hl_step_elem p c0 c1 xk d1 d0 :: stepR ph b0 b1 x d1 d0.
+Proof. reflexivity. Qed.
+
+(* one loop iteration of the model: new state from columns col+1 and col of the
+   driving row, output = sum of the states, next iteration at col-1 *)
+Lemma hl_run_is_source t ts col d x :
+  runR (t :: ts) col d x =
+  let x' := stepR (c_phi R t) (c_B0 R t) (c_B1 R t) x (nth (S col) d 0) (nth col d 0) in
+  sumR x' :: runR ts (pred col) d x'.
+Proof. reflexivity. Qed.
+
+(* columns visited by the model when started as in hl_core: cols-2 iterations from cols-2 downwards *)
+Fixpoint visited (k col : nat) : list nat :=
+  match k with O => [] | S k' => col :: visited k' (pred col) end.
+
+Lemma hl_cols_visited k : map (fun m => (m - 1)%nat) (rev (seq 2 k)) = visited k k.
+Proof.
+  induction k as [|k IH]; [reflexivity|].
+  rewrite seq_S, rev_app_distr. simpl rev. simpl app. simpl map.
+  simpl visited. f_equal; try lia. exact IH.
+Qed.
+
+(* ... which is the order `for indx, col in enumerate(n - 1)` with n = arange(cols-1, 1, -1) of the source *)
+Lemma hl_columns_are_source cols : hl_cols cols = visited (cols - 2) (cols - 2).
+Proof. unfold hl_cols. apply hl_cols_visited. Qed.
+
+(* the model's output row: aim[0] = aim[1], aim[1..cols-2] = the loop outputs in increasing column order,
+   aim[-1] = aim[-2] *)
+Lemma hl_core_is_source K tabs d :
+  hl_coreR K tabs d =
+  let outs := rev (runR tabs (length d - 2) d (repeat 0 K)) in hd 0 outs :: outs ++ [last outs 0].
+Proof. reflexivity. Qed.
